@@ -1,4 +1,5 @@
 import MageModel.Gen.Dispatch
+import MageModel.Gen.Flags
 /-!
 # What the generated main prints for `-l` and for `-h <target>`
 
@@ -8,7 +9,8 @@ default target; value: the synopsis), sorts the keys with `sort.Strings` and wri
 tab-terminated cell, so there is one column, as wide as the widest `"  key"` plus the padding; the synopsis is the
 trailing cell and is written as it is (go/doc's synopsis contains neither tabs nor line breaks).
 `-h <target>` prints the one-line comment, the usage line and the aliases whose function has the same name and receiver.
-Colour is off unless `MAGEFILE_ENABLE_COLOR` is set (not modelled).
+Colour (`MAGEFILE_ENABLE_COLOR`, `MAGEFILE_TARGET_COLOR`, `TERM`) wraps each key in an ANSI sequence before the
+tabwriter measures it.
 -/
 namespace MageModel.Gen
 open MageModel.Parse
@@ -23,6 +25,36 @@ def listKey (info : PkgInfo) (f : Function) : String :=
 def listRows (info : PkgInfo) : List (String × String) :=
   (allTargets info).map fun f => (listKey info f, f.synopsis)
 
+/-! ### colour -/
+def colorNames : List String :=
+  ["black", "red", "green", "yellow", "blue", "magenta", "cyan", "white", "brightblack", "brightred", "brightgreen",
+   "brightyellow", "brightblue", "brightmagenta", "brightcyan", "brightwhite"]
+
+def esc : String := String.singleton (Char.ofNat 27)
+
+/-- the `ansiColor` table -/
+def ansiOf (i : Nat) : String :=
+  if i < 8 then esc ++ "[3" ++ toString i ++ "m" else esc ++ "[3" ++ toString (i - 8) ++ ";1m"
+
+def ansiReset : String := esc ++ "[0m"
+
+/-- `targetColor()`: a known colour name (any case) from `MAGEFILE_TARGET_COLOR`, else cyan -/
+def targetColor (env : String → Option String) : String :=
+  match env "MAGEFILE_TARGET_COLOR" with
+  | some s => match colorNames.findIdx? (· == lower s) with
+    | some i => ansiOf i
+    | none => ansiOf 6
+  | none => ansiOf 6
+
+/-- `enableColor() && terminalSupportsColor()` -/
+def colorOn (env : String → Option String) : Bool :=
+  (Flags.parseBool ((env "MAGEFILE_ENABLE_COLOR").getD "")).getD false &&
+    !(["vt100", "cygwin", "xterm-mono"].contains ((env "TERM").getD ""))
+
+/-- `printName` -/
+def printName (env : String → Option String) (s : String) : String :=
+  if colorOn env then targetColor env ++ s ++ ansiReset else s
+
 def pad (n : Nat) : String := String.ofList (List.replicate n ' ')
 
 /-- text/tabwriter on one-column input -/
@@ -30,7 +62,15 @@ def tabulate (rows : List (String × String)) : String :=
   let width := (rows.map fun r => r.1.length + 2).foldl max 0 + 4
   String.join (rows.map fun r => "  " ++ r.1 ++ pad (width - (r.1.length + 2)) ++ r.2 ++ "\n")
 
-/-- standard output of `-l` -/
+/-- standard output of `-l` in a given environment: the keys are sorted first and coloured afterwards -/
+def listTextEnv (env : String → Option String) (info : PkgInfo) : String :=
+  (if info.description ≠ "" then info.description ++ "\n\n" else "") ++
+  "Targets:\n" ++ tabulate ((sortBy (·.1) (listRows info)).map fun r => (printName env r.1, r.2)) ++
+  (match info.defaultFunc with
+   | some d => if d.name ≠ "" then "\n* default target\n" else ""
+   | none => "")
+
+/-- standard output of `-l` (colour off) -/
 def listText (info : PkgInfo) : String :=
   (if info.description ≠ "" then info.description ++ "\n\n" else "") ++
   "Targets:\n" ++ tabulate (sortBy (·.1) (listRows info)) ++
@@ -61,5 +101,11 @@ def help (bin : String) (info : PkgInfo) (words : List String) : String × Int :
     match helpLookupFn info w with
     | some f => (helpText bin info f, 0)
     | none => ("", 2)
+
+/-- without `MAGEFILE_ENABLE_COLOR` (or on a terminal without colour) the environment does not matter -/
+theorem listTextEnv_plain (env : String → Option String) (info : PkgInfo) (h : colorOn env = false) :
+    listTextEnv env info = listText info := by
+  unfold listTextEnv listText printName
+  simp [h]
 
 end MageModel.Gen
